@@ -5,9 +5,11 @@ package props
 import (
 	"encoding/json"
 	"fmt"
+	"github.com/mandykoh/prism/linear"
 	"image/color"
 	"math"
 	"strings"
+	"sync/atomic"
 	"time"
 	"verifharness/internal/atinit"
 
@@ -472,6 +474,44 @@ func runC01(r *core.Run) {
 		r.AddEvals(n)
 		r.NTCount(n)
 	}
+	// the whole 8-bit colour cube, opaque, through the three pixel constructors: each channel must be
+	// what that code decodes to on its own, whatever the other two channels are (a shortcut keyed on a
+	// combination of channels - their sum, an exclusive-or, equality - shows only on such combinations)
+	if r.Variant == "" || r.Variant == "warm@2" {
+		for _, s := range libSpaces {
+			s := s
+			var table [256]uint32
+			for v := 0; v < 256; v++ {
+				c, _ := s.FromNRGBA(color.NRGBA{R: uint8(v), G: uint8(v), B: uint8(v), A: 255})
+				table[v] = math.Float32bits(c.R)
+			}
+			var bad atomic.Int32
+			core.ParallelFor(256, 16, func(ri int) {
+				if bad.Load() != 0 {
+					return
+				}
+				for gi := 0; gi < 256; gi++ {
+					for bi := 0; bi < 256; bi++ {
+						px := color.NRGBA{R: uint8(ri), G: uint8(gi), B: uint8(bi), A: 255}
+						c1, a1 := s.FromNRGBA(px)
+						c2, a2 := s.FromRGBA(color.RGBA{R: px.R, G: px.G, B: px.B, A: 255})
+						c3, a3 := s.FromEncoded(px)
+						for k, c := range []linear.RGB{c1, c2, c3} {
+							if math.Float32bits(c.R) != table[ri] || math.Float32bits(c.G) != table[gi] || math.Float32bits(c.B) != table[bi] || a1 != 1 || a2 != 1 || a3 != 1 {
+								if bad.Add(1) == 1 {
+									entry := []string{"ColorFromNRGBA", "ColorFromRGBA", "ColorFromEncodedColor/color.NRGBA"}[k]
+									r.Violate("cube", fmt.Sprintf("%s/%s/cube", s.Name, entry), fmt.Sprintf("%s %s(%v) = %v (alphas %v %v %v); decoded one at a time the codes give (%.9g, %.9g, %.9g)", s.Name, entry, px, c, a1, a2, a3, math.Float32frombits(table[ri]), math.Float32frombits(table[gi]), math.Float32frombits(table[bi])), c01CubeCase{s.Name, entry, [3]uint8{px.R, px.G, px.B}})
+								}
+								return
+							}
+						}
+					}
+				}
+			})
+			r.AddEvals(3 << 24)
+		}
+		r.Obs("opaque_8bit_cube_pixels_per_space_and_constructor", 1<<24)
+	}
 	// every carrier type: the decoded value is a function of the 16-bit components the colour
 	// reports through RGBA(), whatever its concrete type (YCbCr, CMYK, NYCbCrA, Alpha16, a caller's
 	// own type, pointers to the standard types)
@@ -491,10 +531,10 @@ func runC01(r *core.Run) {
 		r.Obs("carrier_type_cases", n)
 	}
 	if r.Variant == "" {
-		for _, v := range []string{"encfirst@3", "encfirst+rev@1", "warm@2", "decfirst+encfirst@2", "decfirst+encfirst+rev@6", "atinit@1", "atinit@16"} {
+		for _, v := range []string{"encfirst@3", "encfirst+rev@1", "warm@2", "decfirst+encfirst@2", "decfirst+encfirst+rev@6", "atinit@1", "atinit@16", "imgfirst@4", "imgfirst+rev@16"} {
 			r.RunVariantChild(v, 10*time.Minute, false)
 		}
-		r.Obs("fresh_process_variants", []string{"encfirst@3", "encfirst+rev@1", "warm@2", "decfirst+encfirst@2", "decfirst+encfirst+rev@6", "atinit@1", "atinit@16"})
+		r.Obs("fresh_process_variants", []string{"encfirst@3", "encfirst+rev@1", "warm@2", "decfirst+encfirst@2", "decfirst+encfirst+rev@6", "atinit@1", "atinit@16", "imgfirst@4", "imgfirst+rev@16"})
 		// fresh processes whose first decodes walk the code range at a fixed stride from 0 (a table
 		// built page by page, or extended to a high-water mark, is right or wrong depending on which
 		// code the n-th call asks for)
@@ -518,6 +558,37 @@ func runC01(r *core.Run) {
 	r.Obs("entry_points", append(append([]string{}, c01Entries8...), c01Entries16...))
 	r.Sample(map[string]any{"space": "srgb", "entry": "From16Bit", "code": 32768, "decoded": spaceByName("srgb").From16(32768)})
 	r.Sample(map[string]any{"space": "prophotorgb", "entry": "From8Bit", "code": 7, "decoded": spaceByName("prophotorgb").From8(7)})
+}
+
+type c01CubeCase struct {
+	Space string   `json:"space"`
+	Entry string   `json:"entry"`
+	RGB   [3]uint8 `json:"rgb"`
+}
+
+func c01Cube(cs c01CubeCase) (bool, string) {
+	s := spaceByName(cs.Space)
+	if s == nil {
+		return false, "unknown space"
+	}
+	px := color.NRGBA{R: cs.RGB[0], G: cs.RGB[1], B: cs.RGB[2], A: 255}
+	var c linear.RGB
+	switch cs.Entry {
+	case "ColorFromNRGBA":
+		c, _ = s.FromNRGBA(px)
+	case "ColorFromRGBA":
+		c, _ = s.FromRGBA(color.RGBA{R: px.R, G: px.G, B: px.B, A: 255})
+	default:
+		c, _ = s.FromEncoded(px)
+	}
+	one := func(v uint8) float32 {
+		x, _ := s.FromNRGBA(color.NRGBA{R: v, G: v, B: v, A: 255})
+		return x.R
+	}
+	if c.R != one(px.R) || c.G != one(px.G) || c.B != one(px.B) {
+		return true, fmt.Sprintf("%s %s(%v) = %v; decoded one at a time the codes give (%.9g, %.9g, %.9g)", cs.Space, cs.Entry, px, c, one(px.R), one(px.G), one(px.B))
+	}
+	return false, "ok"
 }
 
 // ---- carrier types ------------------------------------------------------------
@@ -611,6 +682,14 @@ func c01Carrier(s *libSpace, cc c01CarrierCase) (bad bool, msg string) {
 }
 
 func replayC01(stage string, raw json.RawMessage) (bool, string, error) {
+	if stage == "cube" {
+		var cs c01CubeCase
+		if err := json.Unmarshal(raw, &cs); err != nil {
+			return false, "", err
+		}
+		bad, msg := c01Cube(cs)
+		return bad, msg, nil
+	}
 	if stage == "carrier" {
 		var cc c01CarrierCase
 		if err := json.Unmarshal(raw, &cc); err != nil {
